@@ -50,7 +50,10 @@ Step(t, m, e) ==
              wantHs == (IF HasPassword THEN <<"auth">> ELSE <<>>) \o (IF isSlave THEN <<"readonly">> ELSE <<>>)
              hsOK == At(t.hs, e.conn, <<>>) = wantHs
              key == <<e.n, IF \E o \in own : TRUE THEN (CHOOSE o \in own : TRUE).master ELSE "">>
-         IN [t EXCEPT !.viol = @ \cup (IF own = {} THEN {<<"C04", e.c, e.i, "request-for-unowned-slot-forwarded">>}
+             \* (a command re-sent to where a MOVED / ASK reply pointed goes where the cluster said, not where the table says)
+             redirected == <<e.c, e.i, e.toks[1].s>> \in DOMAIN m.redir
+         IN [t EXCEPT !.viol = @ \cup (IF redirected THEN {}
+                                       ELSE IF own = {} THEN {<<"C04", e.c, e.i, "request-for-unowned-slot-forwarded">>}
                                        ELSE IF ~okNode THEN {<<"C04", e.c, e.i, "request-at-wrong-node">>} ELSE {})
                                   \cup (IF hsOK THEN {} ELSE {<<"C04", e.c, e.i, "handshake-missing-or-wrong">>}),
                       !.reads = IF isRead /\ own # {} THEN Put(@, key, At(t.reads, key, 0) + 1) ELSE @]
